@@ -24,7 +24,7 @@ def grid(draw, unit, lo, hi):
 def sched_specs(draw, quiet=True, adaptive=False, force_last=False,
                 empty_ok=False, all_quiet_ok=False, precisions=(None,),
                 max_procs=4, steps_ok=True, state_cond=False, twin_ok=False,
-                deep=False, emit_steps=(1,)):
+                deep=False, emit_steps=(1,), heavy_one_in=5):
     # deep (thorough tier): a third of the cases may have up to two more
     # processes and up to 8 calls
     big = bool(deep) and draw(st.integers(0, 2)) == 0
@@ -46,7 +46,7 @@ def sched_specs(draw, quiet=True, adaptive=False, force_last=False,
     # quiet-heavy cases: several processes with condition scripts and short,
     # mostly un-forced calls (several processes are quiet in one pass that
     # ends without an event, and wake up in a later call)
-    heavy = bool(quiet) and draw(st.integers(0, 4)) == 0
+    heavy = bool(quiet) and draw(st.integers(0, heavy_one_in - 1)) == 0
     if heavy:
         nprocs = max(nprocs, min(3, max_procs))
     procs = []
